@@ -142,8 +142,24 @@ def _same_labels(a, b):
     return True
 
 
+def _shape_labels(y, layout, m):
+    """integer labels may come as a 2-D target (several outputs): row-major, column-major (what DataFrame.values gives) or a transposed view"""
+    if layout in (None, "1d"):
+        return y
+    if layout == "1d-strided":
+        return np.repeat(y, 2)[::2]
+    m = max(1, min(m, len(y)))
+    rows = len(y) // m
+    Y = y[:rows * m].reshape(rows, m)
+    if layout == "2d-F":
+        return np.asfortranarray(Y)
+    if layout == "2d-T":
+        return np.ascontiguousarray(Y.T).T
+    return Y
+
+
 def check_permutation(case):
-    y = _label_array(case)
+    y = _shape_labels(_label_array(case), case.get("layout"), case.get("cols", 2))
     facts = dict(label_kind=case["label_kind"], n_classes=len(set(i for i in case["z"] if i is not None)))
     t = _fct.PermutationReciprocalTransformer(random_state=case["random_state"])
     np.random.seed(case["seed"])
@@ -159,7 +175,8 @@ def check_permutation(case):
     r = t.fit(None, y)
     require(r is t or r is None, "fit:return", "%r" % type(r), facts)     # 'fit returns self' belongs to C02
     perm = dict(t.permutation_)
-    distinct = [v for v in dict.fromkeys(y.tolist()) if not (isinstance(v, float) and np.isnan(v))]
+    distinct = [v for v in dict.fromkeys(y.ravel().tolist()) if not (isinstance(v, float) and np.isnan(v))]
+    facts["layout"] = case.get("layout") or "1d"
     require(len(perm) == len(distinct), "permutation:size", "%r for labels %r" % (perm, distinct), facts)
     require(sorted(int(v) for v in perm.values()) == list(range(len(distinct))), "permutation:not-a-bijection", "%r" % (perm,), facts)
     X = np.arange(len(y), dtype=np.float64).reshape(-1, 1)
@@ -170,14 +187,18 @@ def check_permutation(case):
     require(np.array_equal(np.asarray(X2), X), "features-changed", "", facts)
     require(_same_labels(y2, y0), "permutation:not-undone", "labels %r -> %r -> %r (permutation %r)" % (
         y0.tolist()[:8], np.asarray(y1).tolist()[:8], np.asarray(y2).tolist()[:8], perm), facts)
-    # codes really follow the permutation
-    for u, c in zip(y0.tolist(), np.asarray(y1).tolist()):
+    # codes really follow the permutation, cell by cell
+    require(np.asarray(y1).shape == y0.shape, "permutation:shape", "%r -> %r" % (y0.shape, np.asarray(y1).shape), facts)
+    for u, c in zip(y0.ravel().tolist(), np.asarray(y1).ravel().tolist()):
         if isinstance(u, float) and np.isnan(u):
             require(isinstance(c, float) and np.isnan(c), "permutation:nan-not-kept", "", facts)
+        else:
+            require(int(c) == int(perm[u]), "permutation:code-differs", "label %r coded %r, permutation_ says %r" % (u, c, perm[u]), facts)
     first_seen = {u: i for i, u in enumerate(distinct)}
     identity = all(int(perm[u]) == first_seen[u] for u in distinct)
     return Outcome([case["label_kind"], "identity" if identity else "non-identity", "classes=%d" % len(distinct),
-                    "has-nan" if any(i is None for i in case["z"]) else "no-nan", "refit" if case.get("first") else "first-fit"], not identity)
+                    "has-nan" if any(i is None for i in case["z"]) else "no-nan", "refit" if case.get("first") else "first-fit",
+                    "layout=" + (case.get("layout") or "1d")], not identity)
 
 
 @st.composite
@@ -202,7 +223,11 @@ def _perm_cases(draw, tier="quick", kinds=("int", "int32", "float", "str-object"
         for i in range(k1):
             z1[i] = i
         first = dict(pool=pool1, z=list(draw(st.permutations(z1))))
-    return dict(label_kind=kind, pool=pool, z=z, random_state=draw(st.one_of(st.none(), st.integers(0, 200))), seed=draw(st.integers(0, 2**31 - 2)), first=first)
+    layout = "1d"
+    if kind in ("int", "int32"):
+        layout = draw(st.sampled_from(["1d", "1d-strided", "2d-C", "2d-F", "2d-T"]))
+    return dict(label_kind=kind, pool=pool, z=z, random_state=draw(st.one_of(st.none(), st.integers(0, 200))), seed=draw(st.integers(0, 2**31 - 2)), first=first,
+                layout=layout, cols=draw(st.integers(2, 3)))
 
 
 # ------------------------------------------------------------------------- regressor
